@@ -441,4 +441,64 @@ theorem allocApp_bound (l l' : NL) (pos : Nat) (s : ASlot) (hw : slotWF s = true
       subst h
       exact allBound_set l.nodes pos n' hb (allocChecked_bound n n' s hw (hb n (mem_of_getElem? hn)) hc)
 
+/-! ### several application threads on one node -/
+
+/-- with search and booking in one lock section, and releases inside the lock, every schedule of calls and releases
+    from any number of threads is the same operations one after the other, in the order the lock let them in: same
+    answers, same node -/
+theorem crun_atomic (steps : List CStep) : ∀ (s : CState), s.pend = [] → s.rpend = [] →
+    (crun true true s steps).node = (seqCalls s.node steps).1 ∧ (crun true true s steps).got = s.got ++ (seqCalls s.node steps).2
+    ∧ (crun true true s steps).pend = [] := by
+  induction steps with
+  | nil => intro s hp _; simp [crun, seqCalls, hp]
+  | cons st rest ih =>
+    intro s hp hr
+    cases st with
+    | book k =>
+      have e : cstep true true s (.book k) = s := by simp [cstep, hp]
+      simp only [crun, List.foldl_cons, e, seqCalls]
+      exact ih s hp hr
+    | write k =>
+      have e : cstep true true s (.write k) = s := by simp [cstep, hr]
+      simp only [crun, List.foldl_cons, e, seqCalls]
+      exact ih s hp hr
+    | release k sl =>
+      have e : cstep true true s (.release k sl) = { s with node := deallocate s.node sl } := by simp [cstep]
+      simp only [crun, List.foldl_cons, e, seqCalls]
+      exact ih { s with node := deallocate s.node sl } hp hr
+    | call k rr =>
+      simp only [crun, List.foldl_cons, seqCalls]
+      cases hf : findSlot s.node rr with
+      | none =>
+        have e : cstep true true s (.call k rr) = { s with got := s.got ++ [(k, none)] } := by simp [cstep, hf]
+        rw [e]
+        have := ih { s with got := s.got ++ [(k, none)] } hp hr
+        simp only [crun] at this
+        refine ⟨this.1, ?_, this.2.2⟩
+        rw [this.2.1]; simp
+      | some p =>
+        obtain ⟨sl, n'⟩ := p
+        have e : cstep true true s (.call k rr) = { s with node := n', got := s.got ++ [(k, some sl)] } := by simp [cstep, hf]
+        rw [e]
+        have := ih { s with node := n', got := s.got ++ [(k, some sl)] } hp hr
+        simp only [crun] at this
+        refine ⟨this.1, ?_, this.2.2⟩
+        rw [this.2.1]; simp
+
+theorem seqCalls_bound (steps : List CStep) : ∀ (n : ANode), OccBound n → OccBound (seqCalls n steps).1 := by
+  induction steps with
+  | nil => intro n h; exact h
+  | cons st rest ih =>
+    intro n h
+    cases st with
+    | book k => exact ih n h
+    | write k => exact ih n h
+    | release k sl => exact ih (deallocate n sl) (deallocate_bound n sl h)
+    | call k rr =>
+      simp only [seqCalls]
+      cases hf : findSlot n rr with
+      | none => exact ih n h
+      | some p => exact ih p.2 (findSlot_bound n p.2 rr p.1 h (by rw [hf]))
+
+
 end RPVerif.NodeList
